@@ -10,3 +10,28 @@ package bifrost_rpc
 
 //@ func (*lookupRpcClient).IsEquivalent
 //@   ensures ret ==> samegetters(d, other, LookupRpcClient)
+
+// ---- C35: a service registration answers exactly the lookups its filters admit ----
+// No filter at all admits every service ID; otherwise one of: a configured prefix, the pattern, the
+// list. A configured server pattern must match in addition.
+//@ spec fun rpcServiceMatch(c *RpcServiceController, serviceID string, serverID string) bool = ((len(c.serviceIdPrefixes) == 0 && c.serviceIdRe == nil && len(c.serviceIdList) == 0) || (exists i int :: 0 <= i && i < len(c.serviceIdPrefixes) && hasPrefix(serviceID, c.serviceIdPrefixes[i])) || (c.serviceIdRe != nil && reMatch(c.serviceIdRe, serviceID)) || (serviceID in c.serviceIdList)) && (c.serverIdRe == nil || reMatch(c.serverIdRe, serverID))
+
+//@ func (*RpcServiceController).HandleDirective
+//@   requires c.rc != nil
+//@   loop 1 invariant !matched && (forall j int trigger c.serviceIdPrefixes[j] :: 0 <= j && j <= rangeindex ==> !hasPrefix(serviceID, c.serviceIdPrefixes[j]))
+//@   ensures ret1 == nil
+//@   ensures implements(inst.GetDirective(), LookupRpcService) ==> ((len(ret0) != 0) <==> rpcServiceMatch(c, as(inst.GetDirective(), LookupRpcService).LookupRpcServiceID(), as(inst.GetDirective(), LookupRpcService).LookupRpcServerID()))
+//@   ensures !implements(inst.GetDirective(), LookupRpcService) ==> len(ret0) == 0
+
+// The transform wraps the invoker so that the configured prefixes are stripped, only when enabled.
+//@ func (*RpcServiceController).HandleDirective$1
+//@   noframe
+//@   nosweep nil-deref
+//@   assert at call srpc.NewPrefixInvoker: c.stripServiceIdPrefix && same(arg1, c.serviceIdPrefixes)
+
+// An invoker registration with prefixes answers exactly the service IDs that start with one of them.
+//@ func (*InvokerController).HandleDirective
+//@   ensures ret1 == nil
+//@   ensures implements(inst.GetDirective(), LookupRpcService) && len(c.matchServicePrefixes) == 0 ==> len(ret0) != 0
+//@   ensures implements(inst.GetDirective(), LookupRpcService) && len(ret0) != 0 && len(c.matchServicePrefixes) != 0 ==> exists i int :: 0 <= i && i < len(c.matchServicePrefixes) && hasPrefix(as(inst.GetDirective(), LookupRpcService).LookupRpcServiceID(), c.matchServicePrefixes[i])
+//@   ensures !implements(inst.GetDirective(), LookupRpcService) ==> len(ret0) == 0
